@@ -19,6 +19,7 @@ func (r *CopyOnWriteMap[K, V]) load() fp.UnsafeGoMap[K, V] {
 	m := r.value.Load()
 
 	if m == nil {
+		verifYield("cow.load.init")
 		r.lock.Lock()
 		defer r.lock.Unlock()
 
